@@ -43,4 +43,5 @@ else
   BIN=bin/vcheck$SUF
   go build $MODARGS -o $BIN ./cmd/vcheck 2> bin/build.log || fail_build
 fi
+export VERIF_SRC="$SRC"
 exec ./$BIN "$ID" --tier "$TIER"
